@@ -1,6 +1,7 @@
 package checks
 
 import (
+	"errors"
 	"encoding/hex"
 	"encoding/json"
 	"fmt"
@@ -343,6 +344,13 @@ func c05Run(j *orch.Job, r *orch.Result) error {
 	})
 	vdb := filepath.Join(j.Dir, "variant")
 	res, err := Replay(variant, ReplayOpts{DBPath: vdb, ShortAvg: 12, KeepRows: true, Exclude: harness.LayoutColumns})
+	if err != nil && errors.Is(err, harness.ErrWedged) {
+		// the chain without the forgeries was synced to the end by the run that forged it; with them a block cannot
+		// be applied: entries nobody authorised have had an effect
+		r.Violate("C05", "forged-entries-stop-the-chain", fmt.Sprintf("the chain with forged entries added cannot be synced (%v; last daemon error: %s); the same chain without them can", err, harness.LastDaemonError()),
+			map[string]interface{}{"seed": p.Seed, "mutants_in_chain": nm})
+		return nil
+	}
 	if err != nil {
 		r.Inconclusive = append(r.Inconclusive, "variant replay failed: "+err.Error())
 		return nil
